@@ -15,7 +15,7 @@ Usage follows /repo/tests/integration/network/test_fault_injection.py (names res
 entities)."""
 from __future__ import annotations
 
-from hv.scenarios.base import T, dataclass_stats, dur_ms, seed_all, stats_of, sub_seed
+from hv.scenarios.base import T, dataclass_stats, dur_ms, seed_all, stats_of, sub_seed, shared
 
 NAME = "faults"
 MODEL = "C06"
@@ -269,7 +269,8 @@ def build(cfg, seed):
         elif k == "pause":
             fault = PauseNode(f["entity"], start=a, end=b)
         elif k == "partition":
-            fault = NetworkPartition(list(f["ga"]), list(f["gb"]), start=a, end=b, asymmetric=f["asym"],
+            fault = NetworkPartition(shared("faults.ga", list(f["ga"])), shared("faults.gb", list(f["gb"])), start=a, end=b,
+                                     asymmetric=f["asym"],
                                      network_name=f.get("net"))
         elif k == "latency":
             fault = InjectLatency(f["link"][0], f["link"][1], extra_ms=f["extra_ms"], start=a, end=b,
@@ -283,12 +284,13 @@ def build(cfg, seed):
     node_names = [e.name for e in [*clients, *apps, collector]]
     if cfg.get("random_partition"):   # old cfg shape: one RandomPartition over all nodes
         rp = cfg["random_partition"]
-        schedule.add(RandomPartition(nodes=list(node_names), mtbf=rp["mtbf_ms"] / 1000.0,
+        schedule.add(RandomPartition(nodes=shared("faults.nodes", list(node_names)), mtbf=rp["mtbf_ms"] / 1000.0,
                                      mttr=rp["mttr_ms"] / 1000.0, seed=sub_seed(seed, "random-partition")))
     for i, rp in enumerate(cfg.get("random_partitions", [])):
         # `seed=`: RandomPartition(seed=None) draws from a private OS-seeded Random (documented: "seed for
         # reproducibility"), never from the module-level `random`
-        schedule.add(RandomPartition(nodes=node_names[-rp["n_nodes"]:], mtbf=rp["mtbf_ms"] / 1000.0,
+        # the node list is a process-wide shared object (module-level-constant style, base.shared)
+        schedule.add(RandomPartition(nodes=shared("faults.nodes", node_names[-rp["n_nodes"]:]), mtbf=rp["mtbf_ms"] / 1000.0,
                                      mttr=rp["mttr_ms"] / 1000.0, seed=sub_seed(seed, "random-partition", i),
                                      network_name=rp["net"]))
 
